@@ -356,9 +356,9 @@ func c17Prop(t *testing.T, k *verifkit.Kit) func(c c17Case) error {
 						p.PProf = rec.Code
 					}()
 					p.End = w.now()
-					// (two rounds: three requests 0.175 ms of real time apart, then two requests 0.35 ms apart - with three, what one request
+					// (two rounds: three requests 40 us of real time apart, then two requests 80 us apart - with three, what one request
 					// overwrites in shared state another may put back before the first looks again)
-					for _, offs := range [][]time.Duration{{0, 175 * time.Microsecond, 350 * time.Microsecond}, {0, 350 * time.Microsecond}} {
+					for _, offs := range [][]time.Duration{{0, 40 * time.Microsecond, 80 * time.Microsecond}, {0, 80 * time.Microsecond}} {
 						if !(c.Overlap && p.Panic == "" && p.ScrapeErr == nil) {
 							break
 						}
@@ -369,7 +369,7 @@ func c17Prop(t *testing.T, k *verifkit.Kit) func(c c17Case) error {
 							// across a lookup serialises the requests instead of wedging the bubble)
 							w.mu.Lock()
 							old, oldReal := w.stDelay, w.stDelayReal
-							w.stDelay, w.stDelayReal = 250*time.Microsecond, true
+							w.stDelay, w.stDelayReal = 60*time.Microsecond, true
 							w.mu.Unlock()
 							var wg sync.WaitGroup
 							outs := make([]map[string]map[string]float64, len(offs))
